@@ -29,56 +29,117 @@ fn set_of(names: &[&'static str]) -> VecSet<&'static str> {
 }
 
 /// F: <CfiStackWalker<CONTEXT_X86> as FrameWalker>::{set_caller_register, set_cfa, set_ra} (register width conversion, validity bookkeeping, memoize_register)
-/// I: callee x86 registers, the written value (full u64); register name fixed per call (eax: not forwarded; ebx: forwarded)
+/// I: callee x86 registers, the written value (any value that fits in 32 bits; the too-wide case is its own harness); register name fixed per call (eax: not forwarded)
 /// B: one callback per walker; forwarded set = {ebp, ebx, esi, edi}
 /// O: a value that does not fit the 32-bit register is refused and leaves the caller context AND the caller validity set unchanged; a fitting value is stored and its canonical name becomes valid; unknown names are refused; set_cfa/set_ra write esp/eip
 #[kani::proof]
 #[kani::unwind(12)]
-fn c04_q_cfi_walker_x86_set_register_width() {
-    cfi_walker_x86_set_register_width();
+fn c04_q_cfi_walker_x86_set_register_fits() {
+    cfi_walker_x86_set_register_width(true, false);
 }
 
-/// F: <CfiStackWalker<CONTEXT_X86> as FrameWalker>::{set_caller_register, set_cfa, set_ra} — the callbacks every STACK CFI rule result goes through (same body as c04_q_cfi_walker_x86_set_register_width; registered under C06 because "each other register is set from its rule or marked unknown when its rule fails" ends here)
-/// I: callee x86 registers, the rule result (full u64)
+/// F: as c04_q_cfi_walker_x86_set_register_fits, for values that do not fit in 32 bits
+/// I: callee x86 registers, the written value in (2^32-1, 2^64)
+/// B: one callback per walker
+/// O: the value is refused and leaves the caller context AND the caller validity set unchanged
+#[kani::proof]
+#[kani::unwind(12)]
+fn c04_q_cfi_walker_x86_set_register_too_wide() {
+    cfi_walker_x86_set_register_width(false, false);
+}
+
+/// F: <CfiStackWalker<CONTEXT_X86> as FrameWalker>::{set_caller_register, set_cfa, set_ra} — the callbacks every STACK CFI rule result goes through (same body as the c04 harness; registered under C06 because "each other register is set from its rule or marked unknown when its rule fails" ends here)
+/// I: callee x86 registers, a rule result in (2^32-1, 2^64)
 /// B: one callback per walker
 /// O: a rule result that does not fit the 32-bit register leaves the register unknown (validity set untouched) and unchanged
 #[kani::proof]
 #[kani::unwind(12)]
-fn c06_q_cfi_walker_x86_rule_result_width() {
-    cfi_walker_x86_set_register_width();
+fn c06_q_cfi_walker_x86_rule_result_too_wide() {
+    cfi_walker_x86_set_register_width(false, false);
 }
 
-fn cfi_walker_x86_set_register_width() {
+fn cfi_walker_x86_part_b(ctx: &CONTEXT_X86, valid: &MinidumpContextValidity, mem: &MinidumpMemory<'_>, module: &MinidumpModule, v: u64, fits: bool) {
+    // set_cfa alone
+    let mut r = None;
+    let (c2, s2) = hook::with_cfi_walker(ctx, valid, VecSet::new(), UnifiedMemory::Memory(mem), module, 0x40001000, false, 0, |w| {
+        r = Some(w.set_cfa(v));
+    });
+    assert!(r == Some(if fits { Some(()) } else { None }));
+    assert!(s2.len() == if fits { 1 } else { 0 });
+    if fits {
+        assert!(s2.contains("esp"));
+    }
+    assert!(c2.esp == if fits { v as u32 } else { ctx.esp });
+    assert!(c2.eip == ctx.eip);
+}
+
+fn cfi_walker_x86_part_c(ctx: &CONTEXT_X86, valid: &MinidumpContextValidity, mem: &MinidumpMemory<'_>, module: &MinidumpModule, v: u64, fits: bool) {
+    // set_ra, and a name the context does not know
+    let mut r = (None, None);
+    let (c2, s2) = hook::with_cfi_walker(ctx, valid, VecSet::new(), UnifiedMemory::Memory(mem), module, 0x40001000, false, 0, |w| {
+        r = (Some(w.set_ra(v)), Some(w.set_caller_register("rax", v)));
+    });
+    assert!(r.0 == Some(if fits { Some(()) } else { None }));
+    assert!(r.1 == Some(None));
+    assert!(s2.len() == if fits { 1 } else { 0 });
+    if fits {
+        assert!(s2.contains("eip"));
+    }
+    assert!(c2.eip == if fits { v as u32 } else { ctx.eip });
+    assert!(c2.esp == ctx.esp);
+}
+
+fn cfi_walker_x86_set_register_width(fits: bool, part_b: bool) {
     let ctx = x86_ctx();
     let valid = MinidumpContextValidity::All;
     let bytes = [0u8; 8];
     let mem = MinidumpMemory { desc: Default::default(), base_address: 0x1000, size: 8, bytes: &bytes, endian: Endian::Little };
     let module = MinidumpModule::new(0x40000000, 0x10000, "m");
     let v: u64 = kani::any();
-    let fits = v <= u32::MAX as u64;
+    // whether the value fits is fixed per harness so that the validity set has a concrete size
+    kani::assume((v <= u32::MAX as u64) == fits);
+    if part_b {
+        if kani::any() {
+            cfi_walker_x86_part_b(&ctx, &valid, &mem, &module, v, fits);
+        } else {
+            cfi_walker_x86_part_c(&ctx, &valid, &mem, &module, v, fits);
+        }
+        std::mem::forget(module);
+        return;
+    }
     // a register that is NOT among the forwarded callee-saved ones
     let mut ret = None;
     let (c, s) = hook::with_cfi_walker(&ctx, &valid, set_of(&["ebp", "ebx", "esi", "edi"]), UnifiedMemory::Memory(&mem), &module, 0x40001000, false, 0, |w| {
         ret = Some(w.set_caller_register("eax", v));
     });
     assert!(ret == Some(if fits { Some(()) } else { None }));
-    assert!(s.contains("eax") == fits);
+    if fits {
+        assert!(s.contains("eax"));
+    }
     assert!(c.eax == if fits { v as u32 } else { ctx.eax });
     assert!(s.len() == if fits { 5 } else { 4 });
     assert!(c.ebx == ctx.ebx && c.esp == ctx.esp && c.eip == ctx.eip);
-    kani::cover!(!fits, "a 64-bit value was refused");
-    // cfa / ra
-    let mut r2 = (None, None, None);
-    let (c2, s2) = hook::with_cfi_walker(&ctx, &valid, VecSet::new(), UnifiedMemory::Memory(&mem), &module, 0x40001000, false, 0, |w| {
-        r2 = (Some(w.set_cfa(v)), Some(w.set_ra(v)), Some(w.set_caller_register("rax", v)));
-    });
-    assert!(r2.0 == Some(if fits { Some(()) } else { None }));
-    assert!(r2.1 == Some(if fits { Some(()) } else { None }));
-    assert!(r2.2 == Some(None));
-    assert!(s2.contains("esp") == fits && s2.contains("eip") == fits && s2.len() == if fits { 2 } else { 0 });
-    assert!(c2.esp == if fits { v as u32 } else { ctx.esp });
-    assert!(c2.eip == if fits { v as u32 } else { ctx.eip });
     std::mem::forget(module);
+}
+
+/// F: <CfiStackWalker<CONTEXT_X86> as FrameWalker>::{set_cfa, set_ra, set_caller_register with an unknown name}
+/// I: callee x86 registers, the written value (fits in 32 bits)
+/// B: one walker, three callbacks
+/// O: set_cfa / set_ra store the value in esp / eip and make exactly those valid; a name the context does not know is refused
+#[kani::proof]
+#[kani::unwind(12)]
+fn c04_q_cfi_walker_x86_cfa_ra_fits() {
+    cfi_walker_x86_set_register_width(true, true);
+}
+
+/// F: as c04_q_cfi_walker_x86_cfa_ra_fits for values that do not fit in 32 bits
+/// I: callee x86 registers, the written value in (2^32-1, 2^64)
+/// B: one walker, three callbacks
+/// O: all three callbacks refuse; context and validity untouched
+#[kani::proof]
+#[kani::unwind(12)]
+fn c04_q_cfi_walker_x86_cfa_ra_too_wide() {
+    cfi_walker_x86_set_register_width(false, true);
 }
 
 /// F: <CfiStackWalker<CONTEXT_X86> as FrameWalker>::{get_callee_register, clear_caller_register, get_register_at_address, has_grand_callee, get_grand_callee_parameter_size, get_instruction}, x86::callee_forwarded_regs
